@@ -23,7 +23,11 @@ ITEMS = [
     ("true()", ['bool', True], None, 'true'), ("false()", ['bool', False], None, 'false'),
     ("'a'", ['str', 'a'], None, 'a'), ("'B'", ['str', 'B'], None, 'B'), ("'b'", ['str', 'b'], None, 'b'),
     ("'10'", ['str', '10'], None, '10'), ("'9'", ['str', '9'], None, '9'), ("''", ['str', ''], None, ''),
+    ("'A'", ['str', 'A'], None, 'A'), ("'ab'", ['str', 'ab'], None, 'ab'), ("'AB'", ['str', 'AB'], None, 'AB'),
+    ("'aB'", ['str', 'aB'], None, 'aB'), ("'Ab'", ['str', 'Ab'], None, 'Ab'),
 ]
+STRINGS = [i for i, it in enumerate(ITEMS) if it[1][0] == 'str']
+CI = 'http://www.w3.org/2005/xpath-functions/collation/html-ascii-case-insensitive'
 NUMERIC = [i for i, it in enumerate(ITEMS) if it[2] is not None]
 INTS = [i for i, it in enumerate(ITEMS) if it[1][0] == 'int']
 ALL = list(range(len(ITEMS)))
@@ -40,6 +44,10 @@ KEYS = {
     'const': ("function($x) { 0 }", lambda it: 0, ALL),
     'none-num': (None, lambda it: it[2], NUMERIC),
     'first-char': ("function($x) { substring(string($x), 1, 1) }", lambda it: it[3][:1], ALL),
+    # a collation under which different strings are equal: ties must keep their input order
+    'ci-collation': (None, lambda it: it[3].lower(), STRINGS, CI),
+    'ci-collation-key': ("function($x) { concat($x, '') }", lambda it: it[3].lower(), STRINGS, CI),
+    'ci-first-char': ("function($x) { substring($x, 1, 1) }", lambda it: it[3][:1].lower(), STRINGS, CI),
 }
 
 
@@ -92,7 +100,8 @@ def run_case(case, world):
             key = op['key']
             seq = [i for i in op['seq'] if i in KEYS[key][2]]
             mode = op['mode']
-        kx, kpy, _ = KEYS[key]
+        kx, kpy = KEYS[key][0], KEYS[key][1]
+        coll = "'%s'" % KEYS[key][3] if len(KEYS[key]) > 3 else '()'
         items = [ITEMS[i] for i in seq]
         order = sorted(range(len(items)), key=lambda j: kpy(items[j]))          # Python's sort is stable
         expected = [items[j][1] for j in order]
@@ -106,10 +115,11 @@ def run_case(case, world):
         lit = '(' + ', '.join(it[0] for it in items) + ')'
         try:
             if mode == 'literal':
-                text = 'sort(%s, (), %s)' % (lit, kx) if kx else 'sort(%s)' % lit
+                text = 'sort(%s, %s, %s)' % (lit, coll, kx) if kx else (
+                    'sort(%s)' % lit if coll == '()' else 'sort(%s, %s)' % (lit, coll))
                 res = elementpath.select(None, text, parser=XPath31Parser, item=1)
             else:
-                text = 'sort($s, (), %s)' % kx if kx else 'sort($s)'
+                text = 'sort($s, %s, %s)' % (coll, kx) if kx else ('sort($s)' if coll == '()' else 'sort($s, %s)' % coll)
                 if mode == 'selector':
                     sel = elementpath.Selector(text, parser=XPath31Parser)
                     selectors[op['sel']] = (key, sel)
